@@ -100,8 +100,28 @@ def _fn_worker(eng, c, findings, tmo_ms, jobs, wfd, sem=None):
             res2 = run.FnResult(c)
             res2.obligations = again
             run.solve_parallel(eng, [res2], jobs=jobs, timeout_ms=tmo_ms * factor, sem=sem)
+        # thorough tier: every discharged obligation is decided a second time by an independent solver
+        # build (the stand-alone z3 4.8.12 binary on the SMT-LIB export of the same query)
+        if os.environ.get("PYVC_TIER") == "thorough":
+            import copy
+            pairs = []
+            for o in res.obligations:
+                if o.verdict == "discharged" and not getattr(o, "backend_note", None) and (o.backend or "z3") == "z3":
+                    o2 = copy.copy(o)
+                    o2.use_cli = True
+                    o2.safe_mode = True
+                    o2._retried = True
+                    o2.verdict = None
+                    pairs.append((o, o2))
+            if pairs:
+                res3 = run.FnResult(c)
+                res3.obligations = [p[1] for p in pairs]
+                run.solve_parallel(eng, [res3], jobs=jobs, timeout_ms=tmo_ms, sem=sem)
+                for o, o2 in pairs:
+                    o.xcheck = o2.verdict
         summ = res.summary()
         summ["obligations"] = [dict(name=o.name, verdict=o.verdict, time=round(o.time, 3), backend=o.backend,
+                                    xcheck=getattr(o, "xcheck", None),
                                     kind=o.kind, line=o.lineno, reason=(getattr(o, "reason", "") or "")[:500],
                                     model=getattr(o, "model_summary", None), fuel=getattr(o, "fuel_used", None),
                                     excluded=excluded.get(o.name, []))
@@ -260,6 +280,7 @@ def _main(a, t0):
     trusted = [c for c in contracts if c.trusted]
     todo = [c for c in contracts if not c.trusted]
     tmo = 10000 if a.tier == "quick" else 30000
+    os.environ["PYVC_TIER"] = a.tier
     fn_jobs = 6
     solve_jobs = a.jobs
     # heavy functions first (longest known solve time in the ledger)
@@ -344,6 +365,24 @@ def _main(a, t0):
             bounded = json.load(open(bounded_out))
         else:
             errors.append(("bounded", bounded_log[-2000:]))
+    dis = [o["name"] for o in obligations if o.get("xcheck") == "refuted"]
+    if dis:
+        errors.append(("second-solver", "the two solver builds disagree on: " + ", ".join(dis[:10])))
+    # ---------------------------------------------------------------- thorough: assumed axioms vs CPython
+    axioms_xc = None
+    if a.tier == "thorough":
+        env2 = dict(os.environ, PYTHONPATH=VERIF, AXIOM_SAMPLES="2000", PYTHONDONTWRITEBYTECODE="1")
+        try:
+            pr = subprocess.run(["/venv/bin/python", os.path.join(VERIF, "axioms_check.py")], env=env2, cwd=VERIF,
+                                capture_output=True, text=True, timeout=900)
+            rep = json.load(open(os.path.join(VERIF, "evidence", "axioms.json")))
+            axioms_xc = {"rc": pr.returncode, "axioms": rep.get("axioms"), "anchors": rep.get("anchors"),
+                         "failures": rep.get("failures")}
+            if pr.returncode != 0:
+                errors.append(("axioms", "an assumed axiom is false on a concrete input (trusted base broken): "
+                               + json.dumps(rep.get("failures"))[:1000]))
+        except Exception as e:   # noqa
+            errors.append(("axioms", f"{type(e).__name__}: {e}"))
     # ---------------------------------------------------------------- verdict
     violations = []
     undecided = []
@@ -410,6 +449,11 @@ def _main(a, t0):
                             + (f"{bounded['evaluations']} cases, {bounded['n_failures']} failures" if bounded else "not run")),
             "functions_under_contract": functions,
             "by_backend": by_backend,
+            "second_solver": ({"backend": "z3 4.8.12 binary on the SMT-LIB export (thorough tier)",
+                               "agreed_unsat": sum(1 for o in obligations if o.get("xcheck") == "discharged"),
+                               "undecided_there": sum(1 for o in obligations if o.get("xcheck") in ("unknown", "unsupported", "error")),
+                               "disagreed": [o["name"] for o in obligations if o.get("xcheck") == "refuted"]}
+                              if a.tier == "thorough" else None),
             "solver_time_s": round(sum(o["time"] for o in obligations), 1),
             "covers": [{"contract": c, "cover": nm, "ok": ok} for c, nm, ok in covers if not ok][:20],
             "covers_total": len(covers), "covers_ok": sum(1 for c in covers if c[2]),
@@ -417,6 +461,7 @@ def _main(a, t0):
             "excluded_by_known_finding": [o["name"] for o in obligations if o["excluded"]],
             "lemmas": sorted(lemmas_used),
             "provenance_inventory": prov_inv,
+            "axioms_crosscheck": axioms_xc,
             "samples": samples,
             "bounded": ({k: bounded[k] for k in ("evaluations", "distinct_nontrivial", "clauses", "bounds", "n_failures", "known_ids", "wall_s")}
                         if bounded else None),
